@@ -166,7 +166,7 @@ def gen_bodies(chk):
     chk.rng.seed(12345)
     for n in (1, 2, 3):
         for ks in itertools.product(base, repeat=n):
-            if n == 3 and chk.tier == "quick" and (hash(ks) % 3) != 0:
+            if n == 3 and chk.tier == "quick" and (dhash(ks) % 3) != 0:
                 continue
             bodies.append([g.stmt(k, 0) for k in ks])
     # exit injected at every index of a fixed defer-rich skeleton, nested once and twice
@@ -181,7 +181,7 @@ def gen_bodies(chk):
             bodies.append([g.stmt("M", 0), g.stmt("D", 0), ("N", g.fresh(), inner), g.stmt("M", 0), g.stmt("D", 0)])
             bodies.append([g.stmt("D", 0), ("N", g.fresh(), [g.stmt("D", 0), ("N", g.fresh(), inner), g.stmt("M", 0)]), g.stmt("M", 0)])
     chk.rng.setstate(sysrng_state)
-    n_rand = 600 if chk.tier == "quick" else 6000
+    n_rand = 600 if chk.tier == "quick" else 12000
     for _ in range(n_rand):
         bodies.append(g.body(chk.rng.randint(0, 3), chk.rng.randint(1, 6 if chk.tier == "quick" else 10)))
     return bodies
